@@ -106,6 +106,34 @@ theorem param_loop (f : Str → Int × Bool → Option (ForInStep (Int × Bool))
       · simp [hk, ih]
     · simp [paramStep, Mime.qualityOf, hs, ih]
 
+/-- the parameter loop written with early `return`s (a helper `func … (quality, valid)`): what one iteration
+    returns, `none` = goes on; after the loop the function returns `(1.0, true)` -/
+def paramRet (param : Str) : Option (Int × Bool) :=
+  match Str.split '=' param with
+  | [k, v] =>
+    if Mime.trimOWS k = Mime.qKey then
+      (match Mime.parseQ (Mime.trimOWS v) with
+       | some q => some (((q : Nat) : Int), true)
+       | none => some (1000, false))
+    else none
+  | _ => none
+
+theorem paramRet_eq (ps : List Str) : (ps.findSome? paramRet).getD (1000, true) = qvOf ps := by
+  induction ps with
+  | nil => rfl
+  | cons param rest ih =>
+    unfold qvOf at ih ⊢
+    rw [List.findSome?_cons]
+    rcases hs : Str.split '=' param with _ | ⟨k, _ | ⟨v, _ | ⟨w, t⟩⟩⟩
+    · simp [paramRet, Mime.qualityOf, hs, ih]
+    · simp [paramRet, Mime.qualityOf, hs, ih]
+    · simp only [paramRet, Mime.qualityOf, hs]
+      by_cases hk : Mime.trimOWS k = Mime.qKey
+      · simp only [hk, if_true]
+        cases Mime.parseQ (Mime.trimOWS v) <;> rfl
+      · simp [hk, ih]
+    · simp [paramRet, Mime.qualityOf, hs, ih]
+
 /-- a loop that only folds: `for x in l { acc = step acc x }`, seen through a representation `g` -/
 theorem fold_loop {α β γ : Type} (g : β → γ) (step : β → α → β) (f : α → γ → Option (ForInStep γ))
     (hf : ∀ x acc, f x (g acc) = some (.yield (g (step acc x)))) (l : List α) (acc : β) :
